@@ -16,7 +16,11 @@
 //             min_eprime_over_e) from a 4-letter alphabet indexed by the number of knots (the
 //             defaults satisfy min_eprime_over_e == 1 - max_step_over_range); steps down to
 //             range * 2^-53 (range - step rounds to range); electron in every material, positron
-//             with the tables rotated by one material (a wrong particle index reads another table)
+//             with the tables rotated by one material (a wrong particle index reads another table);
+//             every particle has a second, cross-section-only process (values 1e250) placed
+//             before (e-) / after (e+) the table process: eloss_ppid = 1 / 0; the state stores have
+//             three track slots, slots 0-1 poisoned (other particle, E = 7e250, dedx_range = 1e-300),
+//             all views on slot 2
 //   msc:*     MscStepToGeo / MscStepFromGeo with the real UrbanMscHelper on the same physics; a
 //             different scaled-xs table per (material, particle); msc_mfp against E^2/table;
 //             MscStepFromGeo against the documented inverse in long double, round trip
@@ -989,6 +993,41 @@ class TableProcess final : public Process
     int variant_;
 };
 
+// A second process of the same particle that has only a macroscopic cross section table.  Its
+// values are absurd as a dE/dx or as a range (1e250): a table looked up with the wrong
+// ParticleProcessId fails eloss:rate-mismatch / eloss:range-mismatch at once.
+class XsOnlyProcess final : public Process
+{
+  public:
+    XsOnlyProcess(ParticleId pid, double emin, double emax, int variant)
+        : pid_(pid), emin_(emin), emax_(emax), variant_(variant)
+    {
+    }
+    VecModel build_models(ActionIdIter start_id) const final
+    {
+        Applicability a;
+        a.particle = pid_;
+        a.lower = units::MevEnergy{emin_};
+        a.upper = units::MevEnergy{emax_};
+        return {std::make_shared<TableModel>(*start_id++, a)};
+    }
+    StepLimitBuilders step_limits(Applicability) const final
+    {
+        StepLimitBuilders b;
+        b[ValueGridType::macro_xs] = std::make_unique<SentinelBuilder>(
+            std::make_unique<ValueGridLogBuilder>(emin_, emax_, std::vector<double>{1e250, 1e250, 1e250}),
+            variant_);
+        return b;
+    }
+    bool use_integral_xs() const final { return false; }
+    std::string_view label() const final { return "c14-xs-only-process"; }
+
+  private:
+    ParticleId pid_;
+    double emin_, emax_;
+    int variant_;
+};
+
 // dE/dx shapes (ratio max/min < 2 so that rate(E)*range(E) >= E/2 everywhere, see eloss checks)
 enum ElossShape
 {
@@ -1110,17 +1149,54 @@ struct Physics
         in.options.min_range = o.min_range;
         in.options.max_step_over_range = o.max_step_over_range;
         in.options.min_eprime_over_e = o.min_eprime_over_e;
+        // The electron gets a cross-section-only process BEFORE its table process and the
+        // positron one AFTER it: eloss_ppid is ParticleProcessId{1} for the electron and {0} for
+        // the positron (checked in eloss_ppid_layout_ok), and the per-particle table ranges start
+        // at different offsets.
+        in.processes.push_back(std::make_shared<XsOnlyProcess>(electron, s.emin, s.emax, variant));
         in.processes.push_back(
             std::make_shared<TableProcess>(electron, s.emin, s.emax, tabs, variant));
         in.processes.push_back(
             std::make_shared<TableProcess>(positron, s.emin, s.emax, rotated(tabs), variant));
+        in.processes.push_back(std::make_shared<XsOnlyProcess>(positron, s.emin, s.emax, variant));
         phys = std::make_shared<PhysicsParams>(std::move(in));
-        par_state = CollectionStateStore<ParticleStateData, MemSpace::host>(pars->host_ref(), 1);
-        phys_state = CollectionStateStore<PhysicsStateData, MemSpace::host>(phys->host_ref(), 1);
+        // Three track slots; every view used by the checks is on slot 2, slots 0 and 1 hold
+        // poison (other particle, energy 7e250, dedx_range 1e-300).
+        par_state = CollectionStateStore<ParticleStateData, MemSpace::host>(pars->host_ref(), num_slots);
+        phys_state = CollectionStateStore<PhysicsStateData, MemSpace::host>(phys->host_ref(), num_slots);
+        for (unsigned int sl = 0; sl + 1 < num_slots; ++sl)
+        {
+            PhysicsTrackView pv(phys->host_ref(), phys_state.ref(), sl ? positron : electron,
+                                MaterialId(0), TrackSlotId{sl});
+            pv = PhysicsTrackView::Initializer_t{};
+            pv.dedx_range(1e-300);
+        }
+        {
+            PhysicsTrackView pv(phys->host_ref(), phys_state.ref(), electron, MaterialId(0),
+                                TrackSlotId{num_slots - 1});
+            pv = PhysicsTrackView::Initializer_t{};
+        }
+    }
+    static constexpr unsigned int num_slots = 3;
+    bool eloss_ppid_layout_ok()
+    {
+        return track(0, false).eloss_ppid() == ParticleProcessId{1}
+               && track(0, true).eloss_ppid() == ParticleProcessId{0}
+               && track(0, false).num_particle_processes() == 2
+               && track(0, true).num_particle_processes() == 2;
     }
     ParticleTrackView particle(double E, bool pos = false)
     {
-        ParticleTrackView p(pars->host_ref(), par_state.ref(), TrackSlotId{0});
+        // poison the other slots with the OTHER particle and an absurd energy
+        for (unsigned int sl = 0; sl + 1 < num_slots; ++sl)
+        {
+            ParticleTrackView q(pars->host_ref(), par_state.ref(), TrackSlotId{sl});
+            ParticleTrackView::Initializer_t poison;
+            poison.particle_id = pos ? electron : positron;
+            poison.energy = units::MevEnergy{7e250};
+            q = poison;
+        }
+        ParticleTrackView p(pars->host_ref(), par_state.ref(), TrackSlotId{num_slots - 1});
         ParticleTrackView::Initializer_t init;
         init.particle_id = pos ? positron : electron;
         init.energy = units::MevEnergy{E};
@@ -1130,7 +1206,7 @@ struct Physics
     PhysicsTrackView track(int mat, bool pos = false)
     {
         return PhysicsTrackView(phys->host_ref(), phys_state.ref(), pos ? positron : electron,
-                                MaterialId(mat), TrackSlotId{0});
+                                MaterialId(mat), TrackSlotId{num_slots - 1});
     }
 };
 
@@ -1146,6 +1222,8 @@ static void run_eloss_case(vf::Run& R, std::string const& cid, LogSpec const& sp
     Physics P[2];
     P[0].build(spec, tabs, popts, 0);
     P[1].build(spec, tabs, popts, 1);
+    if (!P[0].eloss_ppid_layout_ok() || !P[1].eloss_ppid_layout_ok())
+        R.harness_error("eloss_ppid layout: expected e- ppid 1, e+ ppid 0, two processes each");
     {
         auto const& sc = P[0].phys->host_ref().scalars;
         if (!(sc.linear_loss_limit == lll && sc.min_range == popts.min_range
@@ -1522,6 +1600,8 @@ static void run_msc_case(vf::Run& R, std::string const& cid, LogSpec const& spec
     {
         P[var].build(spec, tabs, 0.01, var);
         M[var].build(P[var], spec, v, es_count, var);
+        if (!P[var].eloss_ppid_layout_ok())
+            R.harness_error("eloss_ppid layout: expected e- ppid 1, e+ ppid 0, two processes each");
     }
     std::vector<double> energies = make_queries(spec, thorough ? 2 : 1, false);
     energies.push_back(spec.emin * 0.5);
